@@ -151,22 +151,25 @@ int World::mk_fitted(const Op &op) {
     if (len < 1) return 2;
     std::string name = long_name(len);
     cnt.inc("names.link_path_fitted");
+    // a compound step: once the holder exists the step counts as executed, whatever the link call says
+#define LINK(stmt) do { try { stmt; } catch (const std::exception &) { cnt.inc("names.link_path_fitted.link_refused"); } return 0; } while (0)
     try {
         switch (kind) {
-        case 0: { DataArray x = arr_at(a[0], a[1]); if (!x || b.hasTag(name)) return 2; Tag t = b.createTag(name, "t", {0.0}); t.addReference(x); return 0; }
-        case 1: { DataArray x = arr_at(a[0], a[1]); if (!x || b.hasTag(name)) return 2; Tag t = b.createTag(name, "t", {0.0}); t.createFeature(x, LinkType::Untagged); return 0; }
+        case 0: { DataArray x = arr_at(a[0], a[1]); if (!x || b.hasTag(name)) return 2; Tag t = b.createTag(name, "t", {0.0}); LINK(t.addReference(x)); }
+        case 1: { DataArray x = arr_at(a[0], a[1]); if (!x || b.hasTag(name)) return 2; Tag t = b.createTag(name, "t", {0.0}); LINK(t.createFeature(x, LinkType::Untagged)); }
         case 2: { DataArray x = arr_at(a[0], a[1]); if (!x || b.hasMultiTag(name)) return 2; b.createMultiTag(name, "t", x); return 0; }
-        case 3: { DataArray x = arr_at(a[0], a[1]); if (!x || b.hasMultiTag(name)) return 2; MultiTag t = b.createMultiTag(name, "t", x); t.addReference(x); return 0; }
-        case 4: { DataArray x = arr_at(a[0], a[1]); if (!x || b.hasGroup(name)) return 2; Group g = b.createGroup(name, "t"); g.addDataArray(x); return 0; }
-        case 5: { DataFrame x = frame_at(a[0], a[1]); if (!x || b.hasGroup(name)) return 2; Group g = b.createGroup(name, "t"); g.addDataFrame(x); return 0; }
-        case 6: { Tag x = tag_at(a[0], a[1]); if (!x || b.hasGroup(name)) return 2; Group g = b.createGroup(name, "t"); g.addTag(x); return 0; }
-        case 7: { MultiTag x = mtag_at(a[0], a[1]); if (!x || b.hasGroup(name)) return 2; Group g = b.createGroup(name, "t"); g.addMultiTag(x); return 0; }
-        case 8: { Source x = source_at(a[0], a[1]); if (!x || b.hasTag(name)) return 2; Tag t = b.createTag(name, "t", {0.0}); t.addSource(x); return 0; }
-        case 9: { Section x = section_at(a[1]); if (!x || b.hasDataArray(name)) return 2; DataArray d = b.createDataArray(name, "t", DataType::Double, NDSize({2})); d.metadata(x); return 0; }
-        case 10: { Section x = section_at(a[1]); if (!x || f.hasSection(name)) return 2; Section s = f.createSection(name, "t"); s.link(x); return 0; }
-        default: { DataFrame x = frame_at(a[0], a[1]); if (!x || b.hasDataArray(name)) return 2; DataArray d = b.createDataArray(name, "t", DataType::Double, NDSize({2})); d.appendDataFrameDimension(x); return 0; }
+        case 3: { DataArray x = arr_at(a[0], a[1]); if (!x || b.hasMultiTag(name)) return 2; MultiTag t = b.createMultiTag(name, "t", x); LINK(t.addReference(x)); }
+        case 4: { DataArray x = arr_at(a[0], a[1]); if (!x || b.hasGroup(name)) return 2; Group g = b.createGroup(name, "t"); LINK(g.addDataArray(x)); }
+        case 5: { DataFrame x = frame_at(a[0], a[1]); if (!x || b.hasGroup(name)) return 2; Group g = b.createGroup(name, "t"); LINK(g.addDataFrame(x)); }
+        case 6: { Tag x = tag_at(a[0], a[1]); if (!x || b.hasGroup(name)) return 2; Group g = b.createGroup(name, "t"); LINK(g.addTag(x)); }
+        case 7: { MultiTag x = mtag_at(a[0], a[1]); if (!x || b.hasGroup(name)) return 2; Group g = b.createGroup(name, "t"); LINK(g.addMultiTag(x)); }
+        case 8: { Source x = source_at(a[0], a[1]); if (!x || b.hasTag(name)) return 2; Tag t = b.createTag(name, "t", {0.0}); LINK(t.addSource(x)); }
+        case 9: { Section x = section_at(a[1]); if (!x || b.hasDataArray(name)) return 2; DataArray d = b.createDataArray(name, "t", DataType::Double, NDSize({2})); LINK(d.metadata(x)); }
+        case 10: { Section x = section_at(a[1]); if (!x || f.hasSection(name)) return 2; Section s = f.createSection(name, "t"); LINK(s.link(x)); }
+        default: { DataFrame x = frame_at(a[0], a[1]); if (!x || b.hasDataArray(name)) return 2; DataArray d = b.createDataArray(name, "t", DataType::Double, NDSize({2})); LINK(d.appendDataFrameDimension(x)); }
         }
     } catch (const std::exception &) { return 1; }
+#undef LINK
 }
 
 // A linked structure built in one step (every call on its own: a step that is refused - the name exists, the file is ReadOnly - is
